@@ -130,3 +130,27 @@ fn rawshared_forwards() {
     let u: Tagged<u64> = kani::any();
     assert!(s.ptr_eq(RawShared::from(u)) == t.ptr_eq(u), "C11.rawshared.forwards_ptr_eq");
 }
+
+/// Pointer formatting ignores tag and timestamp (thorough tier: core::fmt is costly in CBMC).
+pub(super) struct Sink { pub buf: [u8; 24], pub n: usize }
+impl core::fmt::Write for Sink {
+    fn write_str(&mut self, s: &str) -> core::fmt::Result {
+        let b = s.as_bytes();
+        let mut i = 0;
+        while i < b.len() { if self.n < 24 { self.buf[self.n] = b[i]; } self.n += 1; i += 1; }
+        Ok(())
+    }
+}
+#[kani::proof]
+#[kani::unwind(26)]
+fn c11_pointer_fmt_ignores_tag_and_timestamp() {
+    use core::fmt::Write;
+    let w: usize = kani::any();
+    kani::assume(w < 0x1_0000 && w & 7 == 0);                  // small addresses keep the digit loop short
+    let t: Tagged<u64> = Tagged::from(w as *mut u64);
+    let u = t.with_tag(kani::any()).with_high_tag(kani::any());
+    let (mut a, mut b) = (Sink { buf: [0; 24], n: 0 }, Sink { buf: [0; 24], n: 0 });
+    let _ = write!(a, "{:p}", t);
+    let _ = write!(b, "{:p}", u);
+    assert!(a.n == b.n && a.buf == b.buf && a.n >= 3, "C11.fmt.pointer_formatting_ignores_tag_and_timestamp");
+}
